@@ -398,6 +398,14 @@ class Ctx:
         return False
 
 
+def srepr(x):
+    """repr() that cannot raise (a schema holding an int beyond CPython's int->str limit)"""
+    try:
+        return repr(x)
+    except Exception as e:  # noqa
+        return f"<{type(x).__name__}: repr raised {type(e).__name__}>"
+
+
 def write_replay(prop, what, replay):
     os.makedirs(os.path.join(VERIF, "replays"), exist_ok=True)
     blob = json.dumps({"property": prop, "what": what, **replay}, indent=1, sort_keys=True, default=str)
